@@ -20,6 +20,7 @@ func init() {
 			{ID: "C07-R4", Doc: "decode errors are sticky, zero-row, never end-of-stream", Run: c07r4},
 			{ID: "C07-R5", Doc: "buffered remainder drained before next batch", Run: c07r5},
 			{ID: "C07-R6", Doc: "every batch is decoded into a frame of exactly the decoded length, which is validated", Run: c07r6},
+			{ID: "C11-R1", Doc: "the frame hands codecs and gob exactly the view's rows (offset-translated bounds) (shared)", Run: c11r1},
 		},
 	})
 }
